@@ -134,6 +134,9 @@ type GroupNode struct {
 	Late   bool         `json:"late,omitempty"` // a top-level group of the parser that a scenario with lateGroup adds (AddGroup) only after its first ParseArgs
 	Opts   []*OptNode   `json:"opts,omitempty"`
 	Groups []*GroupNode `json:"groups,omitempty"`
+	// struct fields of this group's struct that carry no-flag (with or without a group tag): nothing inside them is declared,
+	// whatever tags their own fields have (the flat declaration does not contain them)
+	NoFlag []*GroupNode `json:"noFlag,omitempty"`
 
 	idx int
 }
